@@ -162,6 +162,26 @@ Theorem C18_reflexivity_needs_both :
 Proof. split; [exact eq_not_reflexive_dup | exact eq_not_reflexive_nan]. Qed.
 Print Assumptions C18_reflexivity_needs_both.
 
+(* whatever the storage: a stored float against a double, and two stored floats, are compared as doubles after
+   (exact) widening; booleans by value *)
+Theorem C18_float_vs_double_as_doubles : forall x y,
+  op_eq (JFloat x) (JDouble y) = f_eq (fconv F64 x) y /\
+  op_lt (JFloat x) (JDouble y) = f_lt (fconv F64 x) y /\
+  op_gt (JFloat x) (JDouble y) = f_gt (fconv F64 x) y.
+Proof. exact float_vs_double. Qed.
+Print Assumptions C18_float_vs_double_as_doubles.
+
+Theorem C18_floats_as_doubles : forall x y,
+  op_eq (JFloat x) (JFloat y) = f_eq (fconv F64 x) (fconv F64 y) /\
+  op_lt (JFloat x) (JFloat y) = f_lt (fconv F64 x) (fconv F64 y) /\
+  op_gt (JFloat x) (JFloat y) = f_gt (fconv F64 x) (fconv F64 y).
+Proof. exact float_vs_float. Qed.
+Print Assumptions C18_floats_as_doubles.
+
+Theorem C18_booleans_by_value : forall a b, op_eq (JBool a) (JBool b) = Bool.eqb a b.
+Proof. exact bool_eq_by_value. Qed.
+Print Assumptions C18_booleans_by_value.
+
 (* the full statement (without wf) is FALSE of the faithful model, with this witness — the known finding *)
 Theorem C18_symmetry_needs_distinct_keys :
   exists a b, op_eq a b <> op_eq b a.
